@@ -227,7 +227,10 @@ def probeMs : Nat := 2000
 def burstBoundMs : Nat := 5000
 
 def check (sc : Script) (o : Obs) : Option String :=
-  match connectResult sc.initItems o.initOk with
+  -- all four items were sent AND the connection ended inside the window (the panel closed right after its answer): whether
+  -- they "arrived" before the end is a race the property does not decide — either result is accepted
+  let undecided := sc.initEnded && allFourArrived sc.initItems
+  match (if undecided then none else connectResult sc.initItems o.initOk) with
   | some c => some c
   | none =>
   if !o.initOk then
